@@ -1,3 +1,5 @@
 (* Types shared by the generated protocol steps (coq/gen/DbSteps.v) and the recovery model. *)
 Inductive effect := RemoveMeta | RemoveDir | CreateDir | CreateIndex | DeleteAll | AddDocs | Commit | WriteMeta.
 Inductive step := Eff (e : effect) | CP (n : nat).
+(* when the start writes meta.json after a rebuild (the guard around config.write_meta() in open_inner, translated from the source) *)
+Inductive meta_guard := OnDiskOnly (* if !in_memory *) | Always (* no guard *) | IfIndexDir (* if config.index_path.is_dir() *).
